@@ -97,6 +97,20 @@ func seedValue() uint64 {
 	return binary.LittleEndian.Uint64(h[:8])
 }
 
+func evidenceDir() string {
+	if d := os.Getenv("VERIF_EVIDENCE_DIR"); d != "" {
+		return d
+	}
+	return filepath.Join(verifRoot, "evidence")
+}
+
+func replayDir() string {
+	if d := os.Getenv("VERIF_REPLAY_DIR"); d != "" {
+		return d
+	}
+	return filepath.Join(verifRoot, "replays")
+}
+
 func mkWork(id string) string {
 	dir := filepath.Join(verifRoot, ".work", fmt.Sprintf("%s.%d", id, os.Getpid()))
 	if err := os.MkdirAll(dir, 0o755); err != nil {
@@ -134,6 +148,21 @@ func build(p *prop, work string, tier string) (bins map[string]string, ok bool) 
 	}
 	if needTool {
 		targets = append(targets, target{"tool", []string{"build", "-tags", "verif", "-o", filepath.Join(work, "update-wordlist"), "github.com/islishude/bip39/update-wordlist"}})
+	}
+	// development aid: VERIF_REPO=<dir> builds against another checkout of the module
+	// (mutation runs in scratch worktrees); unset, the harness go.mod's "replace => /repo" applies.
+	if alt := os.Getenv("VERIF_REPO"); alt != "" && alt != "/repo" {
+		mod, err := os.ReadFile(filepath.Join(verifRoot, "harness", "go.mod"))
+		sum, err2 := os.ReadFile(filepath.Join(verifRoot, "harness", "go.sum"))
+		if err != nil || err2 != nil {
+			die(2, "cannot read the harness go.mod/go.sum")
+		}
+		altMod := filepath.Join(work, "alt.mod")
+		os.WriteFile(altMod, []byte(strings.Replace(string(mod), "=> /repo", "=> "+alt, 1)), 0o644)
+		os.WriteFile(filepath.Join(work, "alt.sum"), sum, 0o644)
+		for i := range targets {
+			targets[i].args = append([]string{targets[i].args[0], "-modfile=" + altMod}, targets[i].args[1:]...)
+		}
 	}
 	var wg sync.WaitGroup
 	var mu sync.Mutex
@@ -174,7 +203,7 @@ func run(p *prop, tier string) int {
 	seed := seedValue()
 	work := mkWork(p.id)
 	defer os.RemoveAll(work)
-	evidencePath := filepath.Join(verifRoot, "evidence", p.id+".json")
+	evidencePath := filepath.Join(evidenceDir(), p.id+".json")
 	os.MkdirAll(filepath.Dir(evidencePath), 0o755)
 
 	bins, ok := build(p, work, tier)
@@ -458,7 +487,7 @@ func saveReplay(p *prop, r result) string {
 		return ""
 	}
 	h := sha256.Sum256(b)
-	dst := filepath.Join(verifRoot, "replays", fmt.Sprintf("%s-%s.json", p.id, hex.EncodeToString(h[:6])))
+	dst := filepath.Join(replayDir(), fmt.Sprintf("%s-%s.json", p.id, hex.EncodeToString(h[:6])))
 	os.MkdirAll(filepath.Dir(dst), 0o755)
 	if err := os.WriteFile(dst, b, 0o644); err != nil {
 		return ""
@@ -479,7 +508,7 @@ func crashReplay(p *prop, r result) string {
 	}
 	b, _ := json.MarshalIndent(map[string]any{"property": p.id, "kind": "crash", "error": tail(r.log, 80), "case": map[string]any{"job": r.job.name, "shard": r.shard}}, "", " ")
 	h := sha256.Sum256(b)
-	dst := filepath.Join(verifRoot, "replays", fmt.Sprintf("%s-crash-%s.json", p.id, hex.EncodeToString(h[:6])))
+	dst := filepath.Join(replayDir(), fmt.Sprintf("%s-crash-%s.json", p.id, hex.EncodeToString(h[:6])))
 	os.MkdirAll(filepath.Dir(dst), 0o755)
 	if err := os.WriteFile(dst, b, 0o644); err != nil {
 		return ""
